@@ -116,6 +116,8 @@ def zip_v1_classify(v0, v1):
     return None
 
 
+# OPC: [Content_Types].xml is not a part and cannot be referenced by the package signature: its local record, data and directory entry are unprotected
+FORMATS["vsix"]["unprotected_region"] = lambda label: label.split(":", 1)[-1] == "[Content_Types].xml" and label.split(":", 1)[0] in ("cd", "lfh", "data", "dd")
 FORMATS["jar"]["classify"] = zip_v1_classify
 FORMATS["vsix"]["classify"] = zip_v1_classify
 FORMATS["rpm"]["classify"] = P.rpm_classify
